@@ -130,7 +130,27 @@ def handle (req : Json) : Except String Json := do
   let specLW := ofList rowToJson (specInteractionsLW rnd all)
   let unions (t : Tbl) (tag : String) : List Json :=
     ((paramsOf t all).map (·.1)).eraseDups.map (fun id => Json.arr #[Json.str tag, ofInt id, rowToJson (unionParams rnd id (paramsOf t all))])
-  pure (obj [("specLW", specLW), ("unions", Json.arr (unions .E "E" ++ unions .L "L" ++ unions .V "V").toArray),
+  -- phase 5: the padded tables the statement demands, and the tables of the same transactions logged in reverse order
+  let tabs (r : Except Err (List PTable)) : Json := match r with
+    | .ok ts => ofList ptableToJson ts
+    | .error e => obj [("raised", Json.str (errName e))]
+  -- phase 5: `Result.__init__`'s learner cache: the ingredients of `full_name` for every row of the learners table of the file route
+  let fam (f : Option (Option Val)) : Json := match f with
+    | none => Json.str "no-column" | some none => Json.str "missing" | some (some _) => Json.str "value"
+  let nameJ (o : Option FullName) : Json := match o with
+    | none => Json.null
+    | some n => obj [("id", valToJson n.id), ("family", fam n.family), ("keys", ofList Json.str (n.params.map (·.1))), ("vw", Json.bool n.vw)]
+  let namesOf (strip : Bool) : Json :=
+    let f := fileAfter rnd true info file0tt txs
+    match tablesOf true (if strip then stripN f else f) with
+    | .ok [_, lt, _, _] => ofList nameJ (lrnNames lt)
+    | _ => Json.null
+  -- phase 5: the same log written and read through the (tag → shape) tables
+  let via : Json := match viaTables rnd true true info all with
+    | some r => resToJson r
+    | none => obj [("raised", Json.str "no-table-entry")]
+  pure (obj [("specLW", specLW), ("viaTables", via), ("names", namesOf false), ("namesS", namesOf true), ("clean", Json.bool (cleanRunB all)), ("specTables", tabs (.ok (specTables rnd all))),
+             ("padRev", tabs (tablesOf true (fileAfter rnd true info none all.reverse))), ("unions", Json.arr (unions .E "E" ++ unions .L "L" ++ unions .V "V").toArray),
              ("pad", padOf false), ("padS", padOf true),
              ("ff", combo false false false), ("ft", combo false true false), ("tf", combo true false false), ("tt", combo true true false),
              ("ffS", combo false false true), ("ftS", combo false true true), ("tfS", combo true false true), ("ttS", combo true true true),
